@@ -19,12 +19,12 @@ def run(tier, seed):
         "strconv.AppendInt / big.Int.Append print the canonical decimal (model print_Z); checked by the enc stream",
         "float results (inexact division) are compared by class only; float formatting is outside this check",
     ]
-    ok, log = V.regen(only=["GenArith"])
+    ok, log = V.regen(["arith"])
     if not ok:
         c.notes.append("translator failed: " + V.tail(log, 10))
     proved = c.prove(PROPS)
     # correspondence (impl vs model) and property oracle (impl vs exact integer arithmetic)
-    exe_h, hlog = V.build_harness()
+    exe_h, hlog = V.build_harness("c10")
     mism, smism, st = [], [], {}
     if exe_h is None:
         c.broken_correspondence("harness-build", None, V.tail(hlog, 40))
@@ -34,7 +34,7 @@ def run(tier, seed):
             c.broken_correspondence("model-extraction", None, V.tail(mlog, 40))
         else:
             n = 400 if tier == "quick" else 1000000
-            rc, out, cases, st = V.run_harness("c10", seed, n, tier)
+            rc, out, cases, st = V.run_harness("c10", "c10", seed, n, tier)
             if rc != 0:
                 c.broken_correspondence("harness-run", None, V.tail(out, 40))
             else:
@@ -49,7 +49,7 @@ def run(tier, seed):
         c.notes.append("model-vs-Z search candidates: %s" % cands[:8])
         if cands:
             pairs = [("%s:%s" % (x[1], x[2] if len(x) > 2 else "1")) for x in cands]
-            rc, out, cases, st2 = V.run_harness("c10", seed, 0, tier, extra=pairs, name="c10search")
+            rc, out, cases, st2 = V.run_harness("c10", "c10", seed, 0, tier, extra=pairs, name="c10search")
             if rc == 0:
                 smism = V.compare_model(c, exe_m, cases, "c10search", spec=True)
     # impl != spec: the implementation violates the property on that input (replay = the case line)
@@ -73,6 +73,6 @@ def replay(path):
     case = d.get("case")
     if not case:
         return 1
-    exe_h, hlog = V.build_harness()
+    exe_h, hlog = V.build_harness("c10")
     print("replay of a single C10 case is done by re-running the stream with the recorded seed:", d.get("seed"))
     return run("quick", d.get("seed", 1))
